@@ -38,6 +38,18 @@ DEFINERS = [
     ("mixed_order", "c2(G,V) :- c1(G,V). { p(G,V) } :- c2(G,V). { on(G) } :- g(G). c1(G,V) :- dp(G,V), on(G).",
      [["dp", 2], ["g", 1]]),
     ("dneg", "{ on(G) } :- g(G). { p(G,V) } :- dp(G,V), not not on(G).", [["dp", 2], ["g", 1]]),
+    # several defining rules, the complex one NOT first (every rule has to be screened)
+    ("agg_second_rule", "{ c(G) } :- g(G). p(G,V) :- extra(G,V). { p(G,V) } :- dp(G,V), #count { H : c(H) } <= 1.",
+     [["dp", 2], ["g", 1], ["extra", 2]]),
+    ("aggassign_second_rule", "{ c(G) } :- g(G). p(G,V) :- extra(G,V). p(G,V) :- dp(G,_), V = #sum { H : c(H) }.",
+     [["dp", 2], ["g", 1], ["extra", 2]]),
+    ("rec_second_rule", "{ p(G,V) } :- dp(G,V). p(G,V) :- extra(G,V). p(G,W) :- p(G,V), nxt(V,W).",
+     [["dp", 2], ["nxt", 2], ["extra", 2]]),
+    ("arith_second_rule", "p(G,V) :- extra(G,V). { p(G,V*2) } :- dp(G,V).", [["dp", 2], ["extra", 2]]),
+    ("cond_second_rule", "{ c(G,Y) : dp(G,Y) }. p(G,V) :- extra(G,V). p(G,V) :- dp(G,V), c(G,Y) : blk(Y).",
+     [["dp", 2], ["blk", 1], ["extra", 2]]),
+    ("neg_second_rule", "{ on(G) } :- g(G). p(G,V) :- extra(G,V). { p(G,V) } :- dp(G,V), not on(G).",
+     [["dp", 2], ["g", 1], ["extra", 2]]),
 ]
 
 # users that make symmetry / minmax_chains / sum_chains emit domain and order predicates for p
@@ -100,7 +112,7 @@ def jobs(tier: str):
     def mk(j, c0):
         return [config(c0["traits"], c0["inp"], [], VOC)]
 
-    yield from compose.remap(compose.family_jobs(["C11", "C12", "C13"], tier), "C20", mk, checks=("semantic", "domains"))
+    yield from compose.remap(compose.family_jobs(["C11", "C12", "C13"], tier, variants=30), "C20", mk, checks=("semantic", "domains"))
 
 
 def main(tier: str, seed: int) -> int:
